@@ -1162,6 +1162,16 @@ func (vc *VC) evalMulti(st *State, e ast.Expr, n int) []Term {
 }
 
 func (vc *VC) execAssign(st *State, s *ast.AssignStmt) {
+	if len(vc.anchoredNodes[s]) > 0 {
+		pre := st.clone()
+		defer func() {
+			if !dead(st) {
+				// everything anchored at a definition is evaluated once the variable exists
+				vc.nodeAnchors(st, s, "before", nil, pre)
+				vc.nodeAnchors(st, s, "after", nil, pre)
+			}
+		}()
+	}
 	info := vc.info()
 	if s.Tok != token.ASSIGN && s.Tok != token.DEFINE {
 		// op-assign
